@@ -93,7 +93,16 @@ getStartIndex(
                     1),
                 theResult));
 
-        return XalanDOMString::size_type(theResult);
+        // Don't convert a value that is beyond the end of the string
+        // anyway, and might be out of the range of size_type...
+        if (theResult >= static_cast<double>(theStringLength))
+        {
+            return theStringLength;
+        }
+        else
+        {
+            return XalanDOMString::size_type(theResult);
+        }
     }
 }
 
@@ -177,10 +186,14 @@ getSubstringLength(
             }
             else
             {
-                const size_type     theSubstringLength =
-                    size_type(theTotal) - theXPathStartIndex;
+                // Compare before converting, since the value might be
+                // out of the range of size_type...
+                const double    theSubstringLength =
+                    theTotal - static_cast<double>(theXPathStartIndex);
 
-                return theSubstringLength > theMaxLength ? theMaxLength : theSubstringLength;
+                return theSubstringLength > static_cast<double>(theMaxLength) ?
+                            theMaxLength :
+                            size_type(theSubstringLength);
             }
         }
     }
